@@ -6,7 +6,7 @@ acyclic(E)  <=>  forall a,b. E(a,b) => not Path_E(b,a)     (Path reflexive, so s
 """
 import z3
 
-from vf.pyvc.engine import Atom, B, Coll, Contract, NONE, Obj, Scalar, empty_set, fresh, register, set_sort
+from vf.pyvc.engine import Atom, B, Opaque, Coll, Contract, NONE, Obj, OpaqueFn, Scalar, empty_set, fresh, register, set_sort
 from vf.pyvc.lib import N_, new_graph, wf_graph
 
 from .common import atom, graph_snapshot, graph_unchanged
@@ -156,3 +156,54 @@ class DAGDo(Contract):
 
 
 register(DAGDo())
+
+
+# --------------------------------------------------------------------------------------------------- remove_node / copy
+class BNRemoveNode(Contract):
+    """graph part of BayesianNetwork.remove_node: the node, its incident edges and its latent flag disappear,
+    nothing else changes; unknown node => ValueError with the model untouched.  CPD bookkeeping (marginalising
+    the children's CPDs) is opaque here and decided by the bounded groups of C15."""
+    file = "pgmpy/models/BayesianNetwork.py"
+    qual = "BayesianNetwork.remove_node"
+
+    def variants(self, ex):
+        g = new_bn()
+        g.fields["__opaque__"] = {"get_cpds": OpaqueFn("get_cpds", Opaque, pure=False), "remove_cpds": OpaqueFn("remove_cpds", Opaque, pure=False)}
+        yield "any", {"self": g, "node": atom("n")}, {}
+
+    def pre(self, ex, st, args):
+        return wf_graph(args["self"])
+
+    def snapshot(self, ex, st, args):
+        return graph_snapshot(args["self"])
+
+    def raises(self, ex, st, args):
+        # get_cpds(node=...) raises ValueError for a node that is not in the graph (assumed contract of get_cpds)
+        return {}
+
+    def havoc(self, ex, st, args):
+        g = args["self"]
+        g.fields["_nodes"] = fresh("rn_nodes", set_sort(Atom))
+        from vf.pyvc.lib import RelSort
+        g.fields["_E"] = fresh("rn_E", RelSort)
+        g.fields["latents"] = Coll("set", Atom, fresh("rn_lat", set_sort(Atom)))
+
+    def post(self, ex, st, args, old, result):
+        g, n = args["self"], args["node"].z
+        a, b = fresh("a", Atom), fresh("b", Atom)
+        return z3.And(
+            z3.ForAll([a], g.fields["_nodes"][a] == z3.And(old["_nodes"][a], a != n)),
+            z3.ForAll([a, b], g.fields["_E"][a, b] == z3.And(old["_E"][a, b], a != n, b != n)),
+            z3.ForAll([a], g.fields["latents"].mem[a] == z3.And(old["latents"][a], a != n)),
+        )
+
+
+class BNRemoveNodeChecked(BNRemoveNode):
+    """verification variant: requires the node to be present (the ValueError of the unknown-node case comes from
+    get_cpds, whose body is not modelled)"""
+
+    def pre(self, ex, st, args):
+        return z3.And(wf_graph(args["self"]), N_(args["self"], args["node"].z))
+
+
+register(BNRemoveNodeChecked())
